@@ -200,7 +200,7 @@ def vincenty(ra1, dec1, ra2, dec2):
     return np.rad2deg(np.arctan2(num, den)).astype("f8")
 
 
-def on_construction_pole(dec_c, rad, us, pss):
+def on_construction_pole(dec_c, rad, us, pss, south_only=False):
     """True where the exact target (radius sqrt(u)*rad, position angle 2 pi psi from a centre
     at declination dec_c) lies within POLE_EXCL degree of a pole of that frame"""
     th = np.deg2rad(LD(dec_c))
@@ -210,7 +210,13 @@ def on_construction_pole(dec_c, rad, us, pss):
     # (the construction measures the polar angle from the south pole and psi = 0 decreases it)
     a = np.sin(r) * np.sin(psi)
     b = np.cos(th) * np.cos(r) + np.sin(th) * np.sin(r) * np.cos(psi)
-    return np.asarray(np.hypot(a, b) < math.sin(math.radians(POLE_EXCL)))
+    near = np.asarray(np.hypot(a, b) < math.sin(math.radians(POLE_EXCL)))
+    if south_only:
+        # the direct construction measures the polar angle from the SOUTH pole: the 0/0 is there; a target on the north
+        # pole has sin(pi) = 1.2e-16 in the denominator and comes out finite (any longitude is right at the pole)
+        cz = np.sin(th) * np.cos(r) - np.cos(th) * np.sin(r) * np.cos(psi)       # sine of the target's latitude
+        near = near & np.asarray(cz < 0)
+    return near
 
 
 def centre_class(ra, dec):
@@ -524,7 +530,7 @@ def main(ctx):
         rot = bool(dorot or abs(dec) >= 89.9)
         us = np.array(us, dtype="f8")
         pss = np.array(pss, dtype="f8")
-        excl = on_construction_pole(0.0 if rot else dec, rad, us, pss)
+        excl = on_construction_pole(0.0 if rot else dec, rad, us, pss, south_only=not rot)
         if excl.any():
             rec.count("excluded_on_construction_pole", int(excl.sum()))
             us, pss = us[~excl], pss[~excl]
@@ -564,6 +570,14 @@ def main(ctx):
     ps_a = PSIS + ctx.pick([], PSIS_T) + [seed_psi]
     pairs = list(itertools.product(us_a, ps_a))
     units_cap = [(ra, dec, rad, dorot) for (ra, dec) in centres for rad in radii for dorot in (False, True)]
+
+    # draws that land EXACTLY on the north pole of a directly constructed cap (sqrt(u)*rad == 90-dec, position angle due
+    # north): finite, on the pole, at the drawn radius (the mirror case, the south pole, is the documented 0/0 of the
+    # construction and stays off the lattice, see ASSUMPTIONS)
+    POLE_LANDINGS = [(10.0, 60.0, 60.0, 0.25), (200.0, 85.0, 10.0, 0.25), (359.0, 40.0, 100.0, 0.25), (33.0, -42.0, 176.0, 0.5625), (10.0, 0.0, 180.0, 0.25), (77.0, 30.0, 120.0, 0.25)]
+    ctx.lattice("cap-north-pole-landings", [(ra, dec, rad, False, (u_,), (0.5,)) for (ra, dec, rad, u_) in POLE_LANDINGS]
+                + [(ra, dec, rad, False, (u_, 0.3, u_), (0.5, 0.1, 0.5)) for (ra, dec, rad, u_) in POLE_LANDINGS], one_cap, engine="environment",
+                bounds=dict(landings=[list(t) for t in POLE_LANDINGS]))
 
     def expand_cap(u):
         ra, dec, rad, dorot = u
